@@ -774,12 +774,12 @@ prop(
     "two layers. (a) one case = one seeded run of the `interleave` world: root instances of all kinds (7 cipher types, block-API states, 33 hash types, 3 Threefish sizes incl. "
     "with_tweak and shared keys) in one thread, calls interleaved by the seeded scheduler at call granularity on a simulated host; afterwards every instance's own operations are "
     "replayed alone in a fresh world on a fresh thread and its transcript (per-instance event-log digest) must be identical; an inner check that fails only when interleaved is a violation too. "
-    "(b) one case = one cold process under a controlled scheduler: one of 147 enumerated thread workloads (2-6 threads released by a barrier) - 74 first-call workloads (ALL threads make the same kind of FIRST call, "
+    "(b) one case = one cold process under a controlled scheduler: one of 152 enumerated thread workloads (2-6 threads released by a barrier) - 74 first-call workloads (ALL threads make the same kind of FIRST call, "
     "the focus kind cycling over 37 operation kinds: hash types, ciphers, Threefish, block API and bulk calls of several KiB - so that threads race on whatever that call initialises lazily in a cold process; "
     "then repeats of identical calls / other entry points on private instances; in the bulk workloads the second and third thread call again while the first is still in its first call) "
-    "31 hammer workloads (three threads repeat one short call ten times alternating two arguments of their own), the hammer after 246 / 65526 constructions, and 11 mix workloads "
+    "31 hammer workloads (three threads repeat one short call ten times alternating two arguments of their own), the hammer after 246 / 65526 constructions, and 16 mix workloads "
     "(every thread on ANOTHER variant of one family: Jh x4, Groestl x4, BLAKE x4, five Skein configurations, four ChaCha variants, six Skein-1024 output lengths in long misaligned calls; thorough: two variants in 16 KiB calls; "
-    "'mix hammer': six Skein-1024 / five Skein-512 output lengths, eight short calls per thread, three rounds, four to ten preemption rates) - runs in a "
+    "'mix hammer': six Skein-1024 / five Skein-512 output lengths and all variants of ChaCha / BLAKE / JH / Groestl / Threefish+Skein-256, six to eight short calls per thread, three rounds, two to ten preemption rates) - runs in a "
     "fresh Miri interpreter per (workload, scheduler seed, preemption rate); Miri's seeded scheduler decides every preemption, its data-race/deadlock detector is on, every result is compared with the "
     "sequential one-at-a-time expectation computed natively, and any other failure is re-run with the threads one after the other to decide whether it needs overlapping threads. distinct_nontrivial = distinct abstract states of layer (a) (kind of instance, history length class, op kind) + underlying scenarios",
     [
@@ -1090,10 +1090,10 @@ def classify_miri(out):
 
 NW_BASE = 74 + 31
 NW_MIX_FROM = NW_BASE + 31
-NMIX = 11
+NMIX = 16
 MIX_THOROUGH = (6, 7, 8)   # two variants in 16 KiB calls: minutes of interpreter time each
-MIX_HAMMER = (9, 10)       # several output lengths of one Skein state size, eight short calls per thread
-NW = NW_MIX_FROM + NMIX   # 2 x 37 first-call workloads + 31 "hammer" workloads + 31 "wrap" workloads (hammer after 65526 constructions) + 11 "mix" workloads (every thread another variant of one family, long calls)
+MIX_HAMMER = (9, 10, 11, 12, 13, 14, 15)   # several output lengths of one Skein state size / all variants of one family (ChaCha, BLAKE, JH, Groestl, Threefish+Skein-256), six to eight short calls per thread
+NW = NW_MIX_FROM + NMIX   # 2 x 37 first-call workloads + 31 "hammer" workloads + 31 "wrap" workloads (hammer after 65526 constructions) + 16 "mix" workloads (every thread another variant of one family, long calls)
 
 
 def be_dirs():
@@ -1409,7 +1409,7 @@ def miri_jobs(tier, sd):
             continue
         if k in MIX_HAMMER:
             # atomics only show in a schedule that mixes a reader with a recycling writer: several rates, three rounds each
-            mrates = ["0.2", "0.4", "0.6", "0.8"] if tier == "quick" else ["0.05", "0.1", "0.2", "0.3", "0.4", "0.5", "0.6", "0.7", "0.8", "0.9"]
+            mrates = (["0.2", "0.4", "0.6", "0.8"] if k < 11 else ["0.1", "0.5"]) if tier == "quick" else ["0.05", "0.1", "0.2", "0.3", "0.4", "0.5", "0.6", "0.7", "0.8", "0.9"]
         else:
             mrates = ["0.1", "0.3"] if tier == "quick" or k in MIX_THOROUGH else ["0.02", "0.1", "0.3", "0.6"]
         for rep, rate in enumerate(mrates):
@@ -1433,7 +1433,7 @@ WRAP16_COST = {0: 670, 1: 1200, 2: 660, 3: 1100, 4: 440, 5: 530, 6: 1030, 7: 160
 WRAP16_KINDS = tuple(sorted(WRAP16_COST))
 
 
-MIX_COST = [110, 150, 40, 60, 40, 40, 300, 900, 300, 60, 40]
+MIX_COST = [110, 150, 40, 60, 40, 40, 300, 900, 300, 60, 40, 15, 20, 60, 40, 40]
 
 
 def miri_cost_hint(w):
